@@ -34,6 +34,7 @@ type Vars struct {
 	Late      int  // value of a global that gen's function refers to but that is assigned below the target() call
 	AlwaysGen bool // gen is declared always=True
 	Sabotage  bool // leaf's body removes .dawn/build/temp, so that recording its result fails
+	Colon     bool // target //pkg:co:lon exists
 	Diamond   bool // leaf also depends on gen, which mid reaches through the generated file (a shared dependency)
 	Missing   bool // top also depends on a target that does not exist
 	Cycle     bool // leaf depends on top (a dependency cycle when the edge top->leaf exists)
@@ -53,6 +54,7 @@ const (
 	tTop   = "//:top"
 	tLeaf  = "//pkg:leaf"
 	tOther = "//pkg:other"
+	tColon = "//pkg:co:lon" // a target whose name contains a colon (legal to declare, awkward to spell as a label)
 )
 
 var failName = []string{"gen", "mid", "leaf"}
@@ -166,6 +168,9 @@ def _top(t):
 	if v.Other {
 		p.WriteString("def _other(t):\n    step(\"other\")\n    emit(\"out/other\", \"other\")\ntarget(name=\"other\", function=_other)\n")
 	}
+	if v.Colon {
+		p.WriteString("def _colon(t):\n    step(\"co:lon\")\n    emit(\"out/colon\", \"colon\")\ntarget(name=\"co:lon\", function=_colon)\n")
+	}
 	f["pkg/BUILD.dawn"] = p.String()
 	return f
 }
@@ -185,7 +190,7 @@ func (v Vars) env(t string) string {
 		return fmt.Sprintf("E%v C%v", v.Edge, v.Chatty)
 	case tLeaf:
 		return fmt.Sprintf("D%d F%d C%v S%v", v.D, v.FlagV, v.Chatty, v.Sabotage)
-	case tOther:
+	case tOther, tColon:
 		return ""
 	}
 	panic(t)
@@ -244,6 +249,9 @@ func (v Vars) targets() []string {
 	if v.Other {
 		ts = append(ts, tOther)
 	}
+	if v.Colon {
+		ts = append(ts, tColon)
+	}
 	return ts
 }
 
@@ -286,6 +294,8 @@ func outputsOf(t string) []string {
 		return []string{"out/leaf"}
 	case tOther:
 		return []string{"out/other"}
+	case tColon:
+		return []string{"out/colon"}
 	}
 	return nil
 }
